@@ -21,7 +21,6 @@ type Control struct {
 var ControlBases = map[string]string{
 	"refactored T04-4: plain opaque leaf for up to one cause":                        "T04-4",
 	"refactored T04-4: opaque helper keeps a constant message":                       "T04-4",
-	"refactored T10-1: sentinel helper called for non-leaves":                        "T10-1",
 	"refactored T10-1: helper trusts Is alone":                                       "T10-1",
 	"refactored T06-1: pass-through rebuilt from the status":                         "T06-1",
 	"refactored T06-1: helper keeps the first decoded error only when it has a text": "T06-1",
@@ -195,7 +194,6 @@ var Controls = []Control{
 	// controls made in the refactored shape of the code (ControlBases): the rule must still decide after the refactoring
 	{"C13", "refactored T04-4: plain opaque leaf for up to one cause", "errbase/decode.go", `func decodeOpaqueLeaf\(ctx context\.Context, enc \*errorspb\.EncodedErrorLeaf\) error \{\n\tif len\(enc\.MultierrorCauses\) == 0 \{`, "func decodeOpaqueLeaf(ctx context.Context, enc *errorspb.EncodedErrorLeaf) error {\n\tif len(enc.MultierrorCauses) <= 1 {", "R-TREE-RECURSION"},
 	{"C01", "refactored T04-4: opaque helper keeps a constant message", "errbase/decode.go", `opaqueLeaf: opaqueLeaf\{\n\t\t\tmsg:     enc\.Message,`, "opaqueLeaf: opaqueLeaf{\n\t\t\tmsg:     \"multi-cause error\",", "R-OPAQUE-TRANSPORT"},
-	{"C03", "refactored T10-1: sentinel helper called for non-leaves", "errutil/format_error_special.go", `if isLeaf && printSafeLeafSentinel\(err, p\) \{`, "if printSafeLeafSentinel(err, p) {", "R-SPECIAL-LEAF"},
 	{"C03", "refactored T10-1: helper trusts Is alone", "errutil/format_error_special.go", `if markers\.Is\(err, ref\) && err\.Error\(\) == ref\.Error\(\) \{\n\t\t\tp\.Print\(redact\.Safe\(ref\.Error\(\)\)\)`, "if markers.Is(err, ref) {\n\t\t\tp.Print(redact.Safe(err.Error()))", "R-SPECIAL-LEAF"},
 	{"C20", "refactored T06-1: pass-through rebuilt from the status", "grpc/middleware/client.go", `\t\treturn decoded\n\t\}\n\treturn err\n`, "\t\treturn decoded\n\t}\n\treturn status.Convert(err).Err()\n", "R-GRPC-FLOW"},
 	{"C20", "refactored T06-1: helper keeps the first decoded error only when it has a text", "grpc/middleware/client.go", `\t\t\tdecoded = errors\.DecodeError\(ctx, \*enc\)\n`, "\t\t\tif d := errors.DecodeError(ctx, *enc); d.Error() != \"\" {\n\t\t\t\tdecoded = d\n\t\t\t}\n", "R-GRPC-FLOW"},
@@ -232,4 +230,6 @@ var Controls = []Control{
 	{"C14", "Is looks into branches at the end of the chain only", "markers/markers.go", `(\tfor c := err; c != nil; c = errbase\.UnwrapOnce\(c\) \{\n\t\tif isComparable && c == reference \{.*?)\n\t\t// Recursively try multi-error causes, if applicable\.\n\t\tfor _, me := range errbase\.UnwrapMulti\(c\) \{\n\t\t\tif Is\(me, reference\) \{\n\t\t\t\treturn true\n\t\t\t\}\n\t\t\}\n\t\}\n`, "\tvar last error\n$1\n\t\tlast = c\n\t}\n\tfor _, me := range errbase.UnwrapMulti(last) {\n\t\tif Is(me, reference) {\n\t\t\treturn true\n\t\t}\n\t}\n", "R-WALK-MULTI"},
 	{"C07", "hidden error rendered to text before printing", "barriers/barriers.go", `p\.Printf\("-- cause hidden behind barrier\\n%\+v", e\.maskedErr\)`, "p.Printf(\"-- cause hidden behind barrier\\n%s\", redact.Sprintf(\"%+v\", e.maskedErr).StripMarkers())", "R-DETAIL-PRINT"},
 	{"C20", "code decoder declines the zero code", "extgrpc/ext_grpc.go", `wp, ok := payload\.\(\*EncodedGrpcCode\)\n\tif !ok \{`, "wp, ok := payload.(*EncodedGrpcCode)\n\tif !ok || wp.Code == 0 {", "R-DECLINE"},
+	{"C09", "empty lines written as an empty separator outside the verbose mode", "errbase/format_error.go", `emptyLine := sep\n\t\t\t\tif s\.wantDetail \{\n\t\t\t\t\temptyLine = detailSep\[:len\(detailSep\)-1\]\n\t\t\t\t\}`, "emptyLine := detailSep[:len(sep)-1]", "R-WRITE-FAITHFUL"},
+	{"C07", "empty lines collapse in a barrier's message", "errbase/format_error.go", `emptyLine := sep\n\t\t\t\tif s\.wantDetail \{\n\t\t\t\t\temptyLine = detailSep\[:len\(detailSep\)-1\]\n\t\t\t\t\}`, "emptyLine := detailSep[:len(sep)-1]", "R-WRITE-FAITHFUL"},
 }
